@@ -108,7 +108,7 @@ def run(ctx):
     n_real = lead_real = 0
     rk = uuid.UUID("d778c271-9025-9a82-f6dc-b8960b8ad8c5")
 
-    def real_case(hn, mode, l2, plen, small_group, scenario=None):
+    def real_case(hn, mode, l2, plen, small_group, scenario=None, repad=0):
         nonlocal n_real, lead_real
         sa = "DH" if mode.startswith("DH") or mode == "nonce" else mode
         if mode == "DHsmall":
@@ -123,6 +123,11 @@ def run(ctx):
             env_s = seed_env
         else:
             pub = refimpl.group_public_key(hn.lower(), l2, sa, sp, plen)
+            if repad and sa == "DH":
+                # the same group public key in a structure padded to a different key_length than the root key's parameter structure
+                # (same p, g, y as integers): every fixed-width field follows the key structure's own width
+                kl0, p0, g0 = refimpl.parse_ffc_params(sp)
+                pub = refimpl.ffc_key(kl0 + repad, p0, g0, int.from_bytes(pub[8 + 2 * kl0:8 + 3 * kl0], "big"))
             env_s = gen.make_env(kdf_parameters=seed_env.kdf_parameters, l2_key=pub, l1_key=b"", flags=1, secret_algorithm=sa, secret_parameters=sp, private_key_length=plen)
         with toycrypto.recording() as log:
             try:
@@ -130,7 +135,12 @@ def run(ctx):
                 kek_r = seed_env.get_kek(kid)
             except ValueError as e:
                 # a private scalar ≡ 0 for a tiny DH exponent etc. cannot happen here; EC scalars out of range can
-                ctx.notes.append(f"real {mode}/{hn}: {e}")
+                if sa == "DH":
+                    ctx.violation("KEK derivation fails for a well-formed DH configuration", {"mode": mode, "hash": hn, "l2": hx(l2), "secret_parameters": hx(sp)[:80], "private_key_length": plen,
+                                                                                             **({"key_length_padding": repad} if repad else {}), "draw": hx(log.urandom[0]) if log.urandom else "00" * 64},
+                                  f"ValueError: {e}"[:120], "a KEK")
+                else:
+                    ctx.notes.append(f"real {mode}/{hn}: {e}")
                 return
             draw = log.urandom[0]
         n_real += 1
@@ -146,14 +156,15 @@ def run(ctx):
                 lead_real += 1
         if not (kek == kek_r == indep):
             ctx.violation("KEK disagreement with real crypto", {"mode": mode, "hash": hn, "draw": hx(draw), "l2": hx(l2), "secret_parameters": hx(sp)[:80], "private_key_length": plen,
-                                                                **({"scenario": scenario} if scenario else {})},
+                                                                **({"scenario": scenario} if scenario else {}), **({"key_length_padding": repad} if repad else {})},
                           f"sender={hx(kek)} receiver={hx(kek_r)}", f"independent={hx(indep)}")
 
     for hn in HASHES:
         for mode in ("nonce", "DH", "DHsmall", "ECDH_P256", "ECDH_P384"):
             reps = (3 if mode != "DH" else 1) * (4 if ctx.thorough else 1) * (12 if mode == "DHsmall" else 1)
             for _ in range(reps):
-                real_case(hn, mode, gen.rand_bytes(rng, 64), rng.choice([512, 256, 384, 16, 8]), rng.choice(SMALL_GROUPS))
+                real_case(hn, mode, gen.rand_bytes(rng, 64), rng.choice([512, 256, 384, 16, 8]), rng.choice(SMALL_GROUPS),
+                          repad=rng.choice([0, 0, 1, 4]) if mode == "DHsmall" else (rng.choice([0, 1, 4]) if mode == "DH" else 0))
     # ---- (b0) ONE L2 seed (one group key) used under every KDF hash in turn, in one process: whatever the library keeps between
     #      calls, each (seed, hash) pair must still give the KEK of the independent implementation
     for mode in ("nonce", "DHsmall", "ECDH_P256"):
@@ -250,11 +261,20 @@ def replay(ctx, payload):
     # a recorded history ("one seed, every hash in turn") is replayed as that history; a single case as itself
     for hn in ((HASHES + HASHES[::-1]) if v.get("scenario") else [v["hash"]]):
         seed_env = gen.make_env(kdf_parameters=gen.kdf_params(hn), l2_key=l2, l1_key=b"", secret_algorithm=sa, secret_parameters=sp, private_key_length=plen)
-        env_s = seed_env if mode == "nonce" else gen.make_env(kdf_parameters=seed_env.kdf_parameters, l2_key=refimpl.group_public_key(hn.lower(), l2, sa, sp, plen), l1_key=b"",
+        pub = None if mode == "nonce" else refimpl.group_public_key(hn.lower(), l2, sa, sp, plen)
+        if pub is not None and v.get("key_length_padding") and sa == "DH":
+            kl0, p0, g0 = refimpl.parse_ffc_params(sp)
+            pub = refimpl.ffc_key(kl0 + v["key_length_padding"], p0, g0, int.from_bytes(pub[8 + 2 * kl0:8 + 3 * kl0], "big"))
+        env_s = seed_env if mode == "nonce" else gen.make_env(kdf_parameters=seed_env.kdf_parameters, l2_key=pub, l1_key=b"",
                                                               flags=1, secret_algorithm=sa, secret_parameters=sp, private_key_length=plen)
         with toycrypto.recording(lambda n: draw[:n]):
-            kek, kid = env_s.new_kek()
-            kek_r = seed_env.get_kek(kid)
+            try:
+                kek, kid = env_s.new_kek()
+                kek_r = seed_env.get_kek(kid)
+            except ValueError as e:
+                print(f"{hn}: ValueError: {e}")
+                ok = False
+                continue
         indep = refimpl.kek_nonce(hn.lower(), l2, kid.key_info) if mode == "nonce" else refimpl.kek_public(hn.lower(), sa, draw, env_s.l2_key)
         print(f"{hn}: sender={hx(kek)} receiver={hx(kek_r)} independent={hx(indep)}")
         ok = ok and kek == kek_r == indep
